@@ -163,6 +163,10 @@ fn fusion(t: &mut Tape, ctx: &mut Ctx, al: gen::Alpha) -> CheckResult {
         .ok_or_else(|| ctx.fail("half-spider", "half_spider returned None on a leg that lands in the node list"))?;
     let hs = wf(ctx, "spider-wf", sv::from_strict(&hs), "half_spider")?;
     ensure!(ctx, hs == Diagram::discrete(a.nodes.clone(), a.s.clone(), (0..n).collect()), "half-spider", "half_spider(s,w) != spider(s,id,w): {}", hs.pretty());
+    // the lax representation's half-spider is the same cospan
+    let lhs = <LOH as Spider<sv::K>>::half_spider(sv::ff(a.s.clone(), n), obs(&a.nodes)).ok_or_else(|| ctx.fail("half-spider", "lax half_spider returned None on a leg that lands in the node list"))?;
+    let lhs = wf(ctx, "spider-wf", from_lax(&lhs), "lax half_spider")?;
+    ensure!(ctx, lhs == Lax { d: Diagram::discrete(a.nodes.clone(), a.s.clone(), (0..n).collect()), q: vec![] }, "half-spider", "lax half_spider(s,w) != spider(s,id,w): {}", lhs.pretty());
 
     // non-trivial: a merge happens and some node is missed by a leg
     let merges = want.nodes.len() < a.nodes.len() + b.nodes.len();
